@@ -1,7 +1,7 @@
 #!/bin/sh
 # Confirms a delivered regression in its own workspace: demo passes on the unchanged worktree, fails with the patch applied.
 # usage: tools/confirm_mutant.sh <Cxx> <A|B>   -> prints CONFIRMED / NOT-CONFIRMED <reason>
-pid="$1"; v="$2"; W=/tmp/mut/m_$pid; D=$W/out/$v
+pid="$1"; v="$2"; W=/tmp/mut/${MUT_PREFIX:-m_}$pid; D=$W/out/$v
 [ -f "$D/patch.diff" ] || { echo "NOT-CONFIRMED $pid/$v no patch"; exit 1; }
 git -C "$W/wt" checkout -- . >/dev/null 2>&1
 make -C "$W/kit" -j8 demo SRC="$D/demo.cpp" OUT="$W/confirm_demo" >"$W/confirm_build0.log" 2>&1 || { echo "NOT-CONFIRMED $pid/$v demo does not build on unchanged tree"; exit 1; }
